@@ -839,6 +839,11 @@ class BosonicBackend(BaseBosonic):
         if modes is None:
             modes = self.get_modes()
 
+        # ``modes`` are subsystem indices; a deleted or unknown subsystem cannot be returned
+        active = self.get_modes()
+        if any(i not in active for i in modes):
+            raise ValueError("The specified modes are not valid.")
+
         # the data below are returned in ascending order of the mode indices; label them accordingly
         modes = sorted(modes)
         mode_names = ["q[{}]".format(i) for i in modes]
